@@ -165,6 +165,37 @@ fn assembly() -> R {
     Ok(())
 }
 
+/// the convenience builders are defined by the primitive ones: same bytes, or the receiver unchanged
+fn conveniences() -> R {
+    let starts = vec![l(1), n(l(1), vec![a(l(2), l(3))]), n(k(1001), vec![a(l(2), l(3)), a(l(4), l(5))]), w(l(1)), n(el(l(1)), vec![a(l(2), l(3))])];
+    let e = build(&starts[choice(starts.len())]);
+    let b0 = bytes(&e);
+    let (p, o) = (leaf_text(60), leaf_text(61));
+    let direct = e.add_assertion(p.clone(), o.clone());
+    let a_env = Envelope::new_assertion(p.clone(), o.clone());
+    let same = |x: &Envelope, y: &Envelope, what: &str| -> R { if bytes(x) == bytes(y) { Ok(()) } else { rt::viol("convenience builder differs from the primitive operation", what.to_string()) } };
+    match choice(9) {
+        0 => { op("add_assertion_if"); same(&e.add_assertion_if(true, p.clone(), o.clone()), &direct, "add_assertion_if(true)")?; same(&e.add_assertion_if(false, p.clone(), o.clone()), &e, "add_assertion_if(false)")?; }
+        1 => { op("add_assertion_envelope_if"); same(&must!(e.add_assertion_envelope_if(true, a_env.clone()), "refused"), &direct, "add_assertion_envelope_if(true)")?; same(&must!(e.add_assertion_envelope_if(false, a_env.clone()), "refused"), &e, "add_assertion_envelope_if(false)")?;
+               ensure!(e.add_assertion_envelope_if(false, build(&l(9))).is_ok(), "add_assertion_envelope_if(false, ..) must not look at its argument", ""); ensure!(e.add_assertion_envelope_if(true, build(&l(9))).is_err(), "a non-assertion was accepted as assertion", ""); }
+        2 => { op("add_optional_assertion"); same(&e.add_optional_assertion(p.clone(), Some(o.clone())), &direct, "add_optional_assertion(Some)")?; same(&e.add_optional_assertion(p.clone(), None::<String>), &e, "add_optional_assertion(None)")?; }
+        3 => { op("add_nonempty_string_assertion"); same(&e.add_nonempty_string_assertion(p.clone(), o.clone()), &direct, "add_nonempty_string_assertion(non-empty)")?; same(&e.add_nonempty_string_assertion(p.clone(), ""), &e, "add_nonempty_string_assertion(empty)")?;
+               same(&e.add_nonempty_string_assertion(p.clone(), " "), &e.add_assertion(p.clone(), " "), "add_nonempty_string_assertion(blank)")?; }
+        4 => { op("add_optional_assertion_envelope"); same(&must!(e.add_optional_assertion_envelope(Some(a_env.clone())), "refused"), &direct, "add_optional_assertion_envelope(Some)")?; same(&must!(e.add_optional_assertion_envelope(None), "refused"), &e, "add_optional_assertion_envelope(None)")?;
+               same(&must!(e.add_optional_assertion_envelope_salted(None, true), "refused"), &e, "add_optional_assertion_envelope_salted(None)")?; same(&must!(e.add_assertion_envelope_salted(a_env.clone(), false), "refused"), &direct, "add_assertion_envelope_salted(false)")?; }
+        5 => { op("new_or_null / new_or_none"); same(&Envelope::new_or_null(Some(o.clone())), &Envelope::new(o.clone()), "new_or_null(Some)")?; same(&Envelope::new_or_null(None::<String>), &Envelope::null(), "new_or_null(None)")?;
+               ensure!(Envelope::new_or_none(None::<String>).is_none(), "new_or_none(None) is not None", ""); same(&must_some(Envelope::new_or_none(Some(o.clone())))?, &Envelope::new(o.clone()), "new_or_none(Some)")?; }
+        6 => { op("true / false / null"); let (t, f, nl) = (Envelope::r#true(), Envelope::r#false(), Envelope::null());
+               ensure!(t.is_true() && !t.is_false() && !t.is_null() && f.is_false() && !f.is_true() && nl.is_null() && !nl.is_true() && !e.is_true() && !e.is_null(), "is_true / is_false / is_null wrong", "");
+               ensure!(bytes(&t) == vec![0xd8, 0xc8, 0xd8, 0xc9, 0xf5] && bytes(&f) == vec![0xd8, 0xc8, 0xd8, 0xc9, 0xf4] && bytes(&nl) == vec![0xd8, 0xc8, 0xd8, 0xc9, 0xf6], "true / false / null encoding wrong", ""); }
+        7 => { op("add_assertions_salted(false)"); let extra = [a_env.clone(), Envelope::new_assertion(leaf_text(62), leaf_text(63))]; let want = must!(e.add_assertion_envelopes(&extra), "refused"); same(&e.add_assertions_salted(&extra, false), &want, "add_assertions_salted(false)")?; same(&e.add_assertions(&extra), &want, "add_assertions")?; }
+        _ => { op("From<&Envelope> / to_envelope"); same(&Envelope::from(&e), &e, "From<&Envelope>")?; same(&Envelope::new(e.clone()), &e, "Envelope::new(envelope)")?; same(&e.to_envelope(), &e, "to_envelope")?; }
+    }
+    ensure!(bytes(&e) == b0, "a convenience builder altered its receiver", "");
+    Ok(())
+}
+fn must_some(x: Option<Envelope>) -> R<Envelope> { x.ok_or_else(|| rt::Stop::Viol { site: "unexpected None".into(), msg: String::new() }) }
+
 /// obscured assertion elements whose digests the sender chose: digests that agree in all but the last byte
 fn crafted_digests() -> R {
     use bc_envelope::base::envelope::EnvelopeCase;
@@ -219,6 +250,9 @@ pub fn prop() -> Prop {
             Scenario { name: "assembly", f: assembly, thorough_only: false,
                 bounds: "subject in 7 cases (leaf, known value, wrapped leaf, assertion, wrapped node, elided, compressed) x 1..4 assertions (quick; 1..5 thorough), each of 5 (quick) / 7 (thorough) kinds when <=3 assertions (plain, known-value predicate, decorated, elided, the same fact decorated differently; thorough adds node object, compressed), plain beyond x every insertion permutation x one repetition at every place x every digest order; bulk add, add/remove round trips, wrap/unwrap, replace_subject",
                 api: &["Envelope::new", "new_assertion", "add_assertion_envelope", "add_assertion_envelopes", "remove_assertion", "replace_subject", "wrap_envelope", "unwrap_envelope", "elide", "compress", "tagged_cbor", "digest", "is_identical_to"] },
+            Scenario { name: "conveniences", f: conveniences, thorough_only: false,
+                bounds: "5 receivers x 9 groups of convenience builders (add_assertion_if, add_assertion_envelope_if, add_optional_assertion, add_nonempty_string_assertion, add_optional_assertion_envelope(_salted), new_or_null / new_or_none, true / false / null, add_assertions(_salted false), From<&Envelope> / to_envelope) against the primitive operation x every digest order",
+                api: &["add_assertion_if", "add_assertion_envelope_if", "add_optional_assertion", "add_nonempty_string_assertion", "add_optional_assertion_envelope", "add_optional_assertion_envelope_salted", "new_or_null", "new_or_none", "true", "false", "null", "is_true", "is_false", "is_null", "add_assertions_salted"] },
             Scenario { name: "crafted_digests", f: crafted_digests, thorough_only: false,
                 bounds: "2..4 assertion elements, all but one elided with sender-chosen digests that agree in the first 31 (one: first 8) bytes, every insertion permutation x every digest order",
                 api: &["From<EnvelopeCase> for Envelope", "add_assertion_envelope", "try_from_cbor_data"] },
